@@ -96,11 +96,24 @@ class Tracer:
         self.pending_done = 0
         self.timeline = []  # Q:<id> entered the queue, D model call completed, X:<id> caller answered
 
+        self.cur, self.running, self.left = [], [], set()
+        self.done_ids = set()  # requests whose batch has been evaluated
+
     def rec(self, ev):
         self.events.append(ev)
         self.times.append(self.loop.time())
+        if ev.startswith("T:"):
+            self.cur.append(int(ev[2:]))
+        elif ev.startswith("R:"):
+            self.running, self.cur = self.cur, []
         if ev == "D":
             self.timeline.append("D")
+            # a request whose caller left keeps its place in the line until its batch is done
+            for i in self.running:
+                if i in self.left:
+                    self.timeline.append("X:%d" % i)
+            self.done_ids.update(self.running)
+            self.running = []
 
 
 class TracingMixin:
@@ -312,14 +325,53 @@ def run_schedule(sched):
             tracer.timeline.append("X:%d" % i)
 
     def start(*ids):
-        clients.append(loop.create_task(client(ids)))
+        t = loop.create_task(client(ids))
+        clients.append(t)
+        task_of[ids[0]] = t
+
+    def cancel(i):
+        # the caller of (open-loop) request i goes away: its RPC is cancelled
+        t = task_of.get(i)
+        if t is None or t.done():
+            return  # already answered (or never submitted): nothing is abandoned
+        t.cancel()
+        if i in tracer.ids.values():
+            # the server may already have assigned this request's answer (its batch is done) while
+            # the caller has not resumed yet: the model delivers at completion, so what the server
+            # assigned is read off the request object itself
+            item = next((it for it in tracer.keep if tracer.ids.get(id(it)) == i), None)
+            assigned = item is not None and getattr(item, "probs", None) is not None
+            if assigned:
+                try:
+                    deliveries.append((i, S["pb2"].EvaluateResponse(move_probs_bytes=item.probs.tobytes(), value=item.value)))
+                    tracer.timeline.append("X:%d" % i)
+                except Exception:
+                    pass
+                tracer.rec("L:%d" % i)
+            elif i in tracer.done_ids:
+                # the model call has returned (D is recorded when the executor delivers) but the
+                # worker has not resumed to hand the answers out: the caller left BEFORE the model's
+                # `complete`, which is the hand-out
+                k = max(idx for idx, e in enumerate(tracer.events) if e == "D")
+                tracer.events.insert(k, "L:%d" % i)
+                tracer.times.insert(k, tracer.times[k])
+                tracer.timeline.append("X:%d" % i)
+            else:
+                tracer.rec("L:%d" % i)
+            tracer.left.add(i)
+            left.add(i)
+        else:
+            never.add(i)  # cancelled before its first step: the request was never made
 
     clients = []
+    task_of, left, never = {}, set(), set()
     asyncio.set_event_loop(loop)
     try:
         worker = loop.create_task(server.worker_loop())
         for i, a in enumerate(sched["arrivals"]):
             loop.call_at(a[0] / 1e6, start, i)
+        for i, t in sched.get("cancels", []):
+            loop.call_at(t / 1e6, cancel, i)
         nxt = len(sched["arrivals"])
         for lp in sched.get("loops", []):
             loop.call_at(lp[0] / 1e6, start, *range(nxt, nxt + len(lp[1])))
@@ -341,7 +393,8 @@ def run_schedule(sched):
 
     obs = {
         "cap": cap, "mode": sched["mode"], "events": tracer.events, "idle": bool(idle), "crash": crash,
-        "batches": tracer.batches, "end_ms": round(end_time * 1000, 4), "n": len(toks), "timeline": tracer.timeline,
+        "batches": tracer.batches, "end_ms": round(end_time * 1000, 4), "n": len(toks) - len(left) - len(never), "timeline": tracer.timeline,
+        "left": sorted(left), "never_submitted": sorted(never),
         "batch_times_ms": [round(t * 1000, 4) for e, t in zip(tracer.events, tracer.times) if e.startswith("R:")],
     }
     if sched["mode"] == "fp":
@@ -533,6 +586,39 @@ def fp_schedules(ctx):
             t += rng.choice([0, 100, 1000, 1001, 2500, 20000, 60000])
         lat = [rng.choice(LAT) for _ in range(rng.randint(1, 4))]
         yield "mix", sched(times, _rows(rng, len(times)), lat)
+
+
+def leave_schedules(ctx):
+    """Callers that go away (Model/ServerLeave.lean): while parked in `put` (bursts beyond the queue
+    depth), while queued or gathered (before 1 ms), while the model runs, at the very moment the
+    call ends, after they were answered.  `cancels`: [request index, time in µs]."""
+    rng = ctx.rng
+    pool = _state.get("positions") or []
+    n_fp, n_real = (500, 40) if ctx.thorough else (70, 8)
+    for k in range(n_fp + (n_real if pool else 0)):
+        real = k >= n_fp
+        shape = rng.choice(["burst", "burst", "parked", "trickle", "during"])
+        lat = [rng.choice([500, 2500, 10000])]
+        if shape == "burst":
+            times = [0] * rng.choice([2, 3, 5, 8, 9, 20])
+        elif shape == "parked":
+            times = [0] * (rng.choice([82, 85]) if real else rng.choice([85, 100, 170]))
+        elif shape == "trickle":
+            gap = rng.choice(GAPS)
+            times = [i * gap for i in range(rng.choice([3, 8, 12]))]
+        else:
+            times = [0] * rng.choice([2, 9]) + sorted(rng.randint(0, 3 * lat[0]) for _ in range(rng.randint(1, 10)))
+        n = len(times)
+        who = rng.sample(range(n), min(n, rng.choice([1, 1, 2, 3, max(1, n // 4)])))
+        offs = [0, 1, 200, 500, 900, 999, 1000, 1001, 1500, lat[0] // 2 + 1000, lat[0], lat[0] + 1000, 3 * lat[0]]
+        cancels = sorted(([i, times[i] + rng.choice(offs)] for i in who), key=lambda c: (c[1], c[0]))
+        if real:
+            yield "real-leave-" + shape, {
+                "mode": "cls", "arrivals": [[int(t), rng.choice(pool)] for t in times], "latency_us": lat, "cancels": cancels,
+                "model_seed": k % 3, "eval_mode": bool(k % 2), "pe": ["sin", "learned", "none"][k % 3],
+            }
+        else:
+            yield "leave-" + shape, {"mode": "fp", "arrivals": [[int(t), r] for t, r in zip(times, _rows(rng, n))], "latency_us": lat, "cancels": cancels}
 
 
 def loop_schedules(ctx):
@@ -1097,6 +1183,15 @@ def _account(ctx, label, sched, obs, model_line):
     ctx.evaluated()
     ctx.count("schedule:" + label)
     ctx.count("requests", obs["n"])
+    if obs.get("left"):
+        ctx.count("callers-that-left", len(obs["left"]))
+        ev = obs["events"]
+        for i in obs["left"]:
+            k = ev.index("L:%d" % i)
+            before = ev[:k]
+            took = ("T:%d" % i) in before
+            ran = took and any(e.startswith("R:") for e in before[before.index("T:%d" % i):])
+            ctx.count("left:" + ("while-the-model-ran-on-its-row" if ran else "while-in-the-batch-being-formed" if took else "while-queued-or-parked"))
     for b in obs["batches"]:
         ctx.count("batch:1" if b == 1 else "batch:2-7" if b < 8 else "batch:8" if b == 8 else "batch:9-80" if b <= 80 else "batch:>80")
     parked = sum(1 for e in obs["events"] if e.startswith("E:"))
@@ -1140,6 +1235,8 @@ def tie(ctx):
     for label, sched in cls_schedules(ctx):
         runs.append((label, sched, run_schedule(sched)))
     for label, sched in loop_schedules(ctx):
+        runs.append((label, sched, run_schedule(sched)))
+    for label, sched in leave_schedules(ctx):
         runs.append((label, sched, run_schedule(sched)))
     for label, sched in real_loop_schedules(ctx):
         runs.append((label, sched, run_schedule(sched)))
@@ -1198,6 +1295,20 @@ def shrink(sched, key):
         return v is not None and v[0] == key
 
     cur = sched
+    if cur.get("cancels"):
+        # drop arrivals nobody abandons, from the back (indices of the abandoned ones stay valid)
+        keep = max(i for i, _ in cur["cancels"]) + 1
+        n = len(cur["arrivals"])
+        while n > keep:
+            s2 = dict(cur, arrivals=cur["arrivals"][: n - 1])
+            if not fails(s2):
+                break
+            cur, n = s2, n - 1
+        for c in list(cur["cancels"]):
+            s2 = dict(cur, cancels=[x for x in cur["cancels"] if x != c])
+            if s2["cancels"] and fails(s2):
+                cur = s2
+        return cur
     if len(cur["latency_us"]) > 1:
         s2 = dict(cur, latency_us=cur["latency_us"][:1])
         if fails(s2):
